@@ -48,30 +48,40 @@ class C13(Prop):
                   "chunks differing by at most one; esl-selectn / easel downsample output is a size-m sub-multiset of the input for EVERY roll "
                   "function; esl-mask changes exactly the requested coordinates and keeps the length; esl-alipid counters are bounded and symmetric; "
                   "esl-shuffle -m/-w output is a permutation of the input for every roll function; esl-reformat residue options (idempotence, -r/-d inverse, "
-                  "fasta->afa->fasta identity); esl-alistat counts. esl-translate, esl-weight and easel filter are compositions of the C17 ORF machine and the "
-                  "C16 weighting/filter models (their theorems are Props/C17, Props/C16) with the FASTA reader/Stockholm writer. "
-                  "Tie: the sanitizer-built tools of the working tree are run on generated valid inputs and their COMPLETE stdout is compared with the "
-                  "reference's prediction (seeded tools exactly, through the C09 generator model). "
+                  "fasta->afa->fasta identity, --namelen round trip, unaligned output loses no residue in the 60-column wrapping); esl-alistat counts "
+                  "(every column has K+1 counters, a canonical residue/gap is counted in its own cell, missing/nonresidue nowhere); esl-afetch returns a record whose "
+                  "name or accession is the key (first match without an index, names before accessions with one; the verbatim echo is the record's own lines up to its //); "
+                  "esl-compstruct (correct <= pairs, strict rule symmetric, self comparison perfect, Mathews' rule only relaxes); esl-alimask/-alimanip subset theorems. "
+                  "esl-translate, esl-weight, esl-alirev and easel filter are compositions of the C17 ORF machine, the C16 weighting/filter models and the C15 "
+                  "alignment operations with the C03 readers/writers. "
+                  "Tie: the sanitizer-built tools of the working tree are run on generated valid inputs - including files that hold SEVERAL alignments of different "
+                  "shapes for every tool that loops over alignments - and their COMPLETE stdout (and every output file) is compared with the reference's prediction "
+                  "(seeded tools exactly, through the C09 generator model). "
                   "NOT proved: 'never dies for any file content and option combination' over the 27 entry points - that half is a SEARCH "
                   "(fixed + seed-dependent streams of valid/mutated/raw inputs x option combinations parsed from the ESL_OPTIONS tables of the tree).")
     level_note = ("Trusted: Lean kernel + propext/Classical.choice/Quot.sound; the reference functions are specifications written from the manual "
                   "pages/tool sources, tied by exact stdout comparison only on the generated valid-input distribution; printf rounding modelled by exact "
-                  "rational round-half-even (L0); the crash/hang half is support, not proof: a tool death outside the explored inputs is not excluded. "
-                  "Tools with no reference function (esl-ssdraw, -alimanip, -alimerge, -alimask, -alimap, -compalign, -compstruct, -construct, -histplot, "
-                  "-mixdchlet) are covered by the search only; esl-afetch, esl-alimask (-t, -g), esl-alimanip (--seq-k/-r, --lmin/--lmax) and the other alignment formats of esl-reformat by monitors that convert the tool's output back to afa and compare with recomputed rows. "
-                  "36 distinct deaths of the unchanged tree are recorded in known_findings.d/C13.json keyed by tool/site.")
+                  "rational round-half-even (L0), binary64/binary32 arithmetic of the tools mirrored operation by operation (no theorem about rounded values); "
+                  "the crash/hang half is support, not proof: a tool death outside the explored inputs is not excluded. "
+                  "Tools with no reference function (esl-ssdraw, -alimerge, -alimap, -compalign, -construct, -histplot, -mixdchlet) are covered by the search only; "
+                  "esl-alistat --weight/--small/--pcinfo/--psinfo/--bpinfo, esl-alimask -p, esl-reformat --small/--id_map by python monitors or the search only. "
+                  "No known finding is open: the 16 deaths recorded at the start of round 4 were repaired in /repo (12 patches proposed by this builder); their witnesses run as regression cases.")
     trusted_base = ["reference functions (lean/EaselModel/Miniapps) tied to the tools by exact stdout comparison on generated valid inputs",
                     "python runner harness/h_miniapps.py, gcc, ASan/UBSan/LSan, process/file-system behaviour",
                     "Lean compiler/runtime for the executable driver; libc printf rounding modelled by exact rational rounding (L0)"]
-    assumptions = ["reference functions cover: esl-seqstat (-a -c --comptbl, dna/rna/amino), esl-alirev, esl-alipid, esl-seqrange, esl-selectn, esl-mask (-r -l -m -x), "
-                   "esl-reformat (fasta/afa, -d -l -n -r -u -x --gapsym --rename --replace), esl-shuffle (-m -k -w -r -N -L, -G for dna/rna), esl-sfetch "
-                   "(--index, key, -r, -n, -c, -f, -C), easel downsample (lines, -s), esl-translate (-c -l -m -M --watson --crick), esl-alistat/easel alistat (default, -1), "
-                   "esl-weight (-g -p -b --id), easel filter (default options), easel index; FASTA/aligned-FASTA input only",
-                   "alphabet guessing, the other sequence/alignment formats as input, esl-translate -W, esl-weight -f are not modelled; other alignment formats and "
-                   "esl-afetch are checked by conversion back through the tool (afa -> format -> afa, fetched record -> afa), not against a model",
-                   "process and file-system behaviour of the tools, libc printf, and the python runner are trusted",
-                   "the fixed search streams are the same at every seed (so that every death of the unchanged tree is an exactly known witness); only the "
-                   "tools outside gen/c13gen.py:FRAGILE are additionally explored with the seed-dependent stream, on valid inputs x option combinations"]
+    assumptions = ["reference functions cover: esl-seqstat (-a -c --comptbl, dna/rna/amino), esl-alirev, esl-alipid, esl-seqrange, esl-selectn, esl-mask (-r -l -m -x -R), "
+                   "esl-reformat (every alignment format in and out, fasta out of every alignment format, -d -l -n -r -u -x --gapsym --rename --replace --mingap --nogap --keeprf "
+                   "--wussify --dewuss --fullwuss --namelen, --ignore/--acceptx on FASTA), esl-shuffle (-m -k -w -r -N -L, -G for dna/rna, -A -b), esl-sfetch "
+                   "(--index, key, -r, -n, -c, -f, -C, -o, -O), esl-afetch (--index, key by name/accession, -f, -o, -O, --outformat), easel downsample (lines, -s, -S), "
+                   "esl-translate (-c -l -m -M --watson --crick -W), esl-alistat (default, -1, --list --icinfo --rinfo --iinfo --cinfo --noambig; Stockholm/Pfam multi-alignment files and afa), "
+                   "easel alistat (default, -1; afa and guessed Stockholm/Pfam), esl-weight (-g -p -b --id -f --idf), easel filter (default options), easel index, "
+                   "esl-alimask (-t, -g, --rf-is-mask, mask file, --fmask/--gmask files), esl-alimanip (selection/removal/numbering options), esl-compstruct (-m -p)",
+                   "alphabet guessing, the non-FASTA sequence formats as input, esl-alistat --weight/--small/--pcinfo/--psinfo/--bpinfo, esl-alimask -p, "
+                   "esl-reformat --small/--id_map/hmmpgmd, esl-compalign, esl-construct, esl-alimap, esl-alimerge, esl-ssdraw, esl-histplot, esl-mixdchlet are not modelled "
+                   "(python monitors for some, the search for all)",
+                   "process and file-system behaviour of the tools, libc printf, and the python runner are trusted; a NaN the tools print is `0.0/0.0` on x86-64 (`-nan`)",
+                   "the fixed search streams are the same at every seed (so that every death of the unchanged tree is an exactly known witness); every tool "
+                   "is additionally explored with the seed-dependent stream, on valid inputs x option combinations"]
     rule = ("one case = a few input files + one or more tool invocations; reference cases compare complete stdout with the Lean "
             "prediction; search cases classify the exit (0 / non-zero with diagnostic = fine; signal, sanitizer report, fatal "
             "exception abort, timeout, silent non-zero = violation). distinct_nontrivial = distinct (tool, exit class, first stdout line)")
